@@ -114,8 +114,12 @@ def match_known(ob, prop, known):
 
 # ------------------------------------------------------------------------------ helpers the rules do not know
 # Rules that follow calls themselves (their verdict does not depend on where a piece of code lives):
-HELPER_AWARE = {'EFFECT', 'EFFECT-IR', 'ACCUM-ONCE', 'KEY-ARITH', 'ITER-INVALIDATION', 'OWN-ALIAS', 'FIELD-COVER', 'SENTINEL-EXCLUDED',
+HELPER_AWARE = {'CAPACITY', 'EFFECT', 'EFFECT-IR', 'ACCUM-ONCE', 'KEY-ARITH', 'ITER-INVALIDATION', 'OWN-ALIAS', 'FIELD-COVER', 'SENTINEL-EXCLUDED',
                 'PRECISION', 'TYPE', 'SLOPE-ORDER', 'INT-INTERCEPT', 'CONV-RANGE', 'TABLE-WIDTH', 'DATA-EXACT', 'BACK-GUARD', 'SELECT-RANGE'}
+
+
+# obligations decided on the flat view of a function (rules/inline.py: flat), which contains the bodies of all its helpers
+HELPER_AWARE_ARMS = {'build-level'}
 
 
 def unknown_helpers(fn):
@@ -152,7 +156,7 @@ def soften_unknown(obs):
     """a violation reported in a function, part of whose body now lives in a helper the rule does not follow, is not a verdict:
     the rule saw only half of the code.  It becomes undecided (exit 2), never silently a pass."""
     for o in obs:
-        if o.status == VIOLATED and o.fn is not None and o.rule.split(':')[-1] not in HELPER_AWARE:
+        if o.status == VIOLATED and o.fn is not None and o.rule.split(':')[-1] not in HELPER_AWARE and str(o.arm or '').split(':')[0] not in HELPER_AWARE_ARMS:
             try:
                 uh = unknown_helpers(o.fn)
             except Exception:
